@@ -24,6 +24,8 @@ pub fn tid() -> usize {
     TID.with(|c| c.get())
 }
 
+pub const RETRY_BOUND: u32 = 20_000;
+
 #[derive(Clone, Copy, Debug, PartialEq, Eq)]
 enum TState {
     NotStarted,
@@ -283,6 +285,16 @@ impl Baton {
                 s.backoff_events += 1;
                 if r > s.max_backoff_retries {
                     s.max_backoff_retries = r;
+                }
+                // A parked maintainer wakes up after at most 4000 steps of the others (about 2000
+                // retries of a spinning writer). Ten times that without getting the op queued
+                // means nobody drains the queue any more.
+                if r > RETRY_BOUND {
+                    let msg = format!("thread {} retried one write op {} times at the back-off point: the write queue is never drained", me, r);
+                    s.outcome.get_or_insert(Outcome::Livelock(msg));
+                    s.aborted = true;
+                    self.cv.notify_all();
+                    return;
                 }
             }
             _ => {}
